@@ -134,3 +134,47 @@ Definition stmt_bound_captured : Prop :=
     nth (length pre + 1 + length mid) (brun dflt (mkB c0 []) ops) None
     = Some (cell_after dflt c0 pre).
 End BoundStmt.
+
+(** ** the property's wording "at or above the bound" (real interpretation): with a positive
+    bound and positive eps, ten the contracted threshold lies strictly below the bound, so every
+    scalar-nonnegative row whose right-hand side is at or above the bound is dropped, and every
+    row strictly below the threshold -- and every row of any other cone -- is kept *)
+From Coq Require Import Reals.
+Definition stmt_at_or_above_dropped : Prop :=
+  forall (eps ten inf : R) (cones : list cone) (b : list R) (i : nat),
+    (0 < eps)%R -> (0 < ten)%R -> (0 < inf)%R ->
+    length b = total cones -> i < length b ->
+    let keep := keep_map OpsR (new_collapsed cones) b (threshold OpsR eps ten inf) in
+    (nth i (rowsig cones) (RIn ExpC 0) = RNN -> (inf <= nth i b 0)%R -> nth i keep true = false) /\
+    ((nth i b 0 <= threshold OpsR eps ten inf)%R -> nth i keep true = true) /\
+    (nth i (rowsig cones) (RIn ExpC 0) <> RNN -> nth i keep true = true).
+
+(** ** hand deletion: the user's cone list with the dropped rows deleted by hand (scalar cones
+    shrink to the number of kept rows, every other cone is untouched) has, row for row, the
+    meaning of the internal cone list; so has its collapsed form, which is what a solver built
+    from the hand-reduced problem uses *)
+Fixpoint hand_reduce (cs : list cone) (keep : list bool) : list cone :=
+  match cs with
+  | [] => []
+  | c :: r =>
+      let k := nvars c in
+      (match collapsible c with
+       | Some _ => NNC (count_true (firstn k keep))
+       | None => c
+       end) :: hand_reduce r (skipn k keep)
+  end.
+Definition drops_only_scalar (cs : list cone) (keep : list bool) : Prop :=
+  forall i, nth i keep true = false -> nth i (rowsig cs) (RIn ExpC 0) = RNN.
+Definition stmt_hand_reduce : Prop :=
+  forall (cones : list cone) (keep : list bool),
+    length keep = total cones -> drops_only_scalar cones keep ->
+    rowsig (hand_reduce cones keep) = select (rowsig cones) keep /\
+    rowsig (new_collapsed (hand_reduce cones keep)) = rowsig (reduce_cones (new_collapsed cones) keep).
+
+(** ... and, as lists: the cone list the solver holds after presolve is exactly the collapsed
+    form of the hand-reduced user list (so a solver built with presolve off from the hand-reduced
+    problem holds the same internal cones) *)
+Definition stmt_hand_reduce_commutes : Prop :=
+  forall (cones : list cone) (keep : list bool),
+    length keep = total cones -> drops_only_scalar cones keep ->
+    new_collapsed (hand_reduce cones keep) = reduce_cones (new_collapsed cones) keep.
